@@ -40,6 +40,7 @@ def run(chk: Check) -> None:
     run_stop_state(chk, ix, serve, loop)
     run_client_paths(chk, ix)
     run_handlers_flush_and_no_asserts(chk, ix)
+    run_replies_are_ascii_safe(chk, ix)
 
     # ------------- R16.1
     r1 = chk.rule("R16.1", "every exception class that connection I/O or frame decoding may raise inside the serve loop is caught inside the loop by a handler that neither re-raises nor leaves the loop (intended exits identified structurally)", floor=4)
@@ -529,3 +530,23 @@ def run_handlers_flush_and_no_asserts(chk: Check, ix) -> None:
             r9.ok(key, f.loc())
         else:
             r9.violation(key, f.loc(bad), f"`{norm(bad)[:80]}` is a condition on request data with no earlier exit for the other case: a client that sends it crashes the daemon")
+
+
+def run_replies_are_ascii_safe(chk: Check, ix) -> None:
+    """R16.10: writing a reply cannot fail on the text of the reply."""
+    r = chk.rule("R16.10", "a daemon reply may quote client-supplied or file-system text (an unknown command name, a path with an undecodable byte, which Python spells with a lone surrogate). IPCBase.write encodes the frame with .encode('utf-8'), which raises UnicodeEncodeError (a ValueError, outside the `except OSError` guards of serve() and WriteToConn) for a lone surrogate. dmypy_util.send therefore serializes with json.dumps' default ensure_ascii=True (every non-ASCII character is escaped, the frame is pure ASCII and encoding is total); passing ensure_ascii=False is only acceptable if the writers' guards also catch UnicodeError/ValueError", floor=1)
+    f = ix.func("mypy.dmypy_util.send")
+    dumps = [c for c in ast.walk(f.node) if isinstance(c, ast.Call) and norm(c.func) in ("json.dumps", "json_dumps", "dumps")]
+    if not dumps:
+        raise AnalysisError("dmypy_util.send: json.dumps call not found")
+    srv = ix.func("mypy.dmypy_server.Server.serve")
+    catches_value_error = any(isinstance(h, ast.ExceptHandler) and h.type is not None and any(n in norm(h.type) for n in ("ValueError", "UnicodeError", "UnicodeEncodeError", "Exception")) and any(isinstance(c, ast.Call) and call_name(c) == "send" for s in getattr(par_try, "body", []) for c in ast.walk(s)) for par_try in ast.walk(srv.node) if isinstance(par_try, ast.Try) for h in par_try.handlers)
+    for c in dumps:
+        key = "dmypy_util.send: the serialized reply can always be encoded"
+        raw = any(k.arg == "ensure_ascii" and isinstance(k.value, ast.Constant) and k.value.value is False for k in c.keywords)
+        if not raw:
+            r.ok(key, f.loc(c), "ensure_ascii left at True: the frame is ASCII")
+        elif catches_value_error:
+            r.ok(key, f.loc(c), "ensure_ascii=False, but serve() catches the encoding error around send()")
+        else:
+            r.violation(key, f.loc(c), "`ensure_ascii=False` lets a lone surrogate through to IPCBase.write's .encode('utf-8'): the UnicodeEncodeError is not an OSError, escapes the serve loop, the status file is removed and the daemon exits (request: an unknown command named 'frob\\ud800nicate', or a check of a file whose name has an undecodable byte)")
